@@ -113,6 +113,14 @@ def main():
                 lines = [l for l in oc.splitlines() if l.startswith("VIOLATION") or l.startswith("  class=") or l.startswith("OK ") or l.startswith("KNOWN") or "HARNESS" in l]
                 meta["checks"][p] = {"exit": rcc, "wall_s": round(time.time() - t0, 1), "output": [l[:400] for l in lines[:8]]}
                 meta["ran"].append("VERIF_REPO=<worktree with change> ./check %s quick -> exit %d" % (p, rcc))
+                if rcc == 0 and os.environ.get("SEED_DEEP", "1") != "0":
+                    # not caught by the quick tier: the thorough tier, time-boxed
+                    t0 = time.time()
+                    e2 = dict(e, VERIF_BUDGET_S=os.environ.get("SEED_DEEP_BUDGET_S", "240"))
+                    rct, oct_ = sh(["./check", p, "thorough"], cwd=VERIF, env=e2)
+                    lines = [l for l in oct_.splitlines() if l.startswith("VIOLATION") or l.startswith("  class=") or l.startswith("OK ") or "HARNESS" in l]
+                    meta["checks"][p + ":thorough"] = {"exit": rct, "wall_s": round(time.time() - t0, 1), "output": [l[:400] for l in lines[:6]]}
+                    meta["ran"].append("VERIF_REPO=<worktree with change> VERIF_BUDGET_S=%s ./check %s thorough -> exit %d" % (e2["VERIF_BUDGET_S"], p, rct))
         if os.path.realpath(out) != os.path.realpath(src):
             shutil.copy(patch, os.path.join(out, "patch.diff"))
             for d in demos:
@@ -124,7 +132,7 @@ def main():
                 shutil.copy(readme, os.path.join(out, "README.md"))
         ok = meta.get("patch_applies") and meta.get("demo_without_change") == "pass" and meta.get("demo_with_change") == "fail" and meta.get("suite_with_change") == "pass"
         meta["confirmed"] = bool(ok)
-        meta["caught_by"] = [p for p, v in meta.get("checks", {}).items() if v["exit"] == 1]
+        meta["caught_by"] = [p.replace(":thorough", " (thorough tier)") for p, v in meta.get("checks", {}).items() if v["exit"] == 1]
         json.dump(meta, open(os.path.join(out, "meta.json"), "w"), indent=1)
         print(json.dumps({k: meta.get(k) for k in ("property", "slug", "confirmed", "demo_without_change", "demo_with_change", "suite_with_change", "caught_by")}, indent=None))
         for p, v in meta.get("checks", {}).items():
